@@ -21,8 +21,24 @@ def c02(tier, seed):
     return runs
 
 
+def c03(tier, seed):
+    cfgs = ["d", "c", "p", "r", "crf"] if tier == "quick" else ["d", "c", "p", "r", "f", "rf", "cr", "crf", "nd"]
+    runs = [run(c, "rel", "c03") for c in cfgs]
+    runs += [run(c, "dbg", "c03", ["percount=60", "u32stride=4001"], tag="dbg") for c in (["r", "crf"] if tier == "quick" else cfgs)]
+    return runs
+
+
+def c04(tier, seed):
+    cfgs = ["d", "c", "r", "rf"] if tier == "quick" else ["d", "c", "p", "r", "f", "rf", "cr", "crf", "nd"]
+    runs = [run(c, "rel", "c04") for c in cfgs]
+    runs += [run(c, "dbg", "c04", tag="dbg") for c in (["d", "rf"] if tier == "quick" else cfgs)]
+    return runs
+
+
 PLANS = {
     "C01": c01,
+    "C04": c04,
+    "C03": c03,
     "C02": c02,
 }
 
@@ -54,6 +70,28 @@ META = {
             "f64 is sampled (2^64 cannot be enumerated)",
         ],
     },
+    "C03": {
+        "rule": "values = ALL u8/i8/u16/i16 in every radix of the configuration (exhaustive); for wider types per radix: r^k+-{0,1,2}, 2^k+-1, "
+        "MIN/MAX, per digit count k a seeded sample of values with exactly k digits plus digit patterns with zero runs / all-max digits "
+        "(chunk boundaries of the u64/u128 splitters), both signs; u32 decimal on a seeded stride (thorough: all 2^32) with widened 19/29-digit "
+        "companions. Judged: bytes == reference numeral (repeated u128 division), decimal == Display, '+' only with required_mantissa_sign, "
+        "returned slice pointer == buffer start, buffer = documented FORMATTED_SIZE flush against a guard page. "
+        "distinct_nontrivial = half the evaluations on types wider than 16 bits (edge lists may repeat values).",
+        "assumptions": ["reference numeral: u128 division in the harness", "core Display for the decimal comparison"],
+    },
+    "C04": {
+        "rule": "inputs per (type, radix): ALL strings of length <= 4 (thorough 5) over {+,-,0,1,highest digit in both cases, first invalid "
+        "letter,_,0x00,0x2F,0x3A,0x80,0xFF}; numerals of MAX/MIN +-{0,1,2}, limit*radix, all-max-digit and 1000.. strings of every length up to "
+        "maxlen+2, random numerals, each with every sign, 0/1/3/40 leading zeros, junk suffix, truncation, one-byte substitution; mixed case; "
+        "4..25-byte digit windows with every non-digit byte value (0x00-0xFF) at every position (SWAR lanes); 100-4096 leading zeros. "
+        "x 12 types x every radix of the configuration x {parse, parse_partial} x no_multi_digit {on, off} (+ default API for radix 10), "
+        "release and debug-assertion builds. Judged by a left-to-right wide-arithmetic reference scanner: value, consumed count, error kind "
+        "AND index must match. distinct_nontrivial = distinct (type, radix, input) whose expected result is an error or a value within "
+        "radix^2 of the type limit.",
+        "assumptions": [
+            "a partial parse that meets a non-digit before any digit may return Ok((0, n<=sign length)) or Empty/InvalidDigit (left open by the statement; C11 judges it)",
+        ],
+    },
 }
 
 
@@ -65,5 +103,15 @@ def replay_bits(body):
     return ["replay=" + body["case"]["bits"], "type=" + body["case"]["type"]]
 
 
-REPLAY = {"C01": replay_input, "C02": replay_bits}
+def replay_c03(body):
+    c = body["case"]
+    return [f"replay={c['type']}:{c['radix']}:{c['value']}"]
+
+
+def replay_c04(body):
+    c = body["case"]
+    return [f"replay={c['type']}:{c['radix']}:{c['input']}"]
+
+
+REPLAY = {"C04": replay_c04, "C01": replay_input, "C02": replay_bits, "C03": replay_c03}
 POST = {}
